@@ -84,7 +84,45 @@ func parsedOptions() ggen.Options {
 }
 
 func genSyn(t *rapid.T) SynCase {
+	return genSynWith(t, synOptions())
+}
+
+// SeqCase: the summaries of one commit list, then those of another list in the same process.
+type SeqCase struct {
+	First  SynCase `json:"first"`
+	Second SynCase `json:"second"`
+}
+
+func genSeq(t *rapid.T) SeqCase {
 	o := synOptions()
+	o.MaxCommits = 8
+	c := SeqCase{First: genSynWith(t, o), Second: genSynWith(t, o)}
+	// now and then the second list carries the same abbreviated hashes as the first one
+	if rapid.IntRange(0, 2).Draw(t, "sameHashes") == 2 {
+		reuse(c.First, &c.Second)
+	}
+	return c
+}
+
+func reuse(first SynCase, second *SynCase) {
+	revs := make([]string, len(second.Commits))
+	seen := map[string]bool{}
+	for i, sc := range second.Commits {
+		revs[i] = sc.Rev
+		if i < len(first.Commits) {
+			revs[i] = first.Commits[i].Rev
+		}
+		if seen[revs[i]] {
+			return // would not be distinct: leave the second list as it is
+		}
+		seen[revs[i]] = true
+	}
+	for i := range second.Commits {
+		second.Commits[i].Rev = revs[i]
+	}
+}
+
+func genSynWith(t *rapid.T, o ggen.Options) SynCase {
 	h := ggen.Gen(t, o)
 	sim, err := ggen.Simulate(h)
 	if err != nil {
@@ -615,6 +653,23 @@ func checkSyn(c SynCase) pbt.Verdict {
 	return judge(c, messages(c))
 }
 
+// checkSeq: whatever was summarised before in this process, the summaries of a list are those
+// of that list (the statement speaks of every parsed history, not of the first one of a process).
+func checkSeq(c SeqCase) pbt.Verdict {
+	git.VerifResetGit()
+	if v := judge(c.First, messages(c.First)); v.Violation != "" {
+		v.Violation = "first commit list: " + v.Violation
+		return v
+	}
+	v := judge(c.Second, messages(c.Second))
+	if v.Violation != "" {
+		v.Violation = "second commit list, summarised after another list in the same process: " + v.Violation + "-- the list summarised before --\n" + render(messages(c.First))
+	}
+	raw, _ := json.Marshal(c)
+	v.Canon = string(raw)
+	return v
+}
+
 func checkParsed(c ParsedCase) pbt.Verdict {
 	sim, err := ggen.Simulate(c.History)
 	if err != nil {
@@ -680,16 +735,17 @@ func sameAsExpected(msgs []git.CommitMessage, exp []ggen.Expected) bool {
 
 func init() {
 	pbt.SetProperty("C15")
-	pbt.Describe("operation lists drawn by the git-history generator of C14 (add / modify / delete / rename to another name, directory, the root, one directory up or down, replaced or prepended directory components; re-creation of deleted paths; conventional-commit subjects with and without scope; non-decreasing dates with ties), linear histories. 'syn': 0-30 commits by 1-4 authors over up to 8 live files, turned directly into []CommitMessage with free added/deleted numbers, the order of changes inside a commit shuffled, renames written in git's notation (dir/{a => b}/f, { => sub}/f, {sub => }/f, a => b) or forced to the full-path form; 'parsed': 1-12 commits, up to 5 files, printed in the exact git log layout by the format emulator (validated against real git at start-up) and parsed by BuildMessageByInput. Oracle: a reference fold over the operation list (old path / new path, not the notation): per live file the set of commits, the set of authors and the date of the first commit; a rename moves the record, a delete drops it. Compared: team summary as a set of (file, revisions, authors) and non-increasing in revisions; code age as a set of (file, first date) and non-decreasing; top authors as a set of (author, commits, added-deleted) with commit counts summing to the number of commits; basic summary commits / authors / distinct paths (with renames only: paths >= files existing at the end); changelog map = per conventional type and file name (the new name for a rename) the number of commits. Non-trivial = the history has a rename or a delete and at least 2 authors; distinct = hash of the commit list.",
+	pbt.Describe("operation lists drawn by the git-history generator of C14 (add / modify / delete / rename to another name, directory, the root, one directory up or down, replaced or prepended directory components; re-creation of deleted paths; conventional-commit subjects with and without scope; non-decreasing dates with ties; imports of 9-24 files in one commit, so that more than 20 files are left and a change-log type touches more than 10; mode-only changes = revisions without a line change; names that are a prefix or suffix of another name; author names with inner punctuation), linear histories. 'syn': 0-30 commits by 1-8 authors over up to 8 live files (plus imports), turned directly into []CommitMessage with free added/deleted numbers, now and then a commit without any file change, path components that begin with a blank, the order of changes inside a commit shuffled, renames written in git's notation (dir/{a => b}/f, { => sub}/f, {sub => }/f, a => b) or forced to the full-path form; 'parsed': 1-12 commits, up to 5 files, printed in the exact git log layout by the format emulator (validated against real git at start-up) and parsed by BuildMessageByInput; 'seq': two short 'syn' lists (now and then with the same hashes) summarised one after the other in one process, both judged; 'cli': 1-8 commits built with real git (validated like C14's cases), `coca git -b -t -a -o -m` (or, one time in three, a subset of the five flags) run inside the repository, the change-log sections and the rows of the last table read from stdout (4 statistics, files of the team summary, files of the code age, authors - in the order of the flags) and compared with the same reference; code age in the table is months before now, so only the order (oldest first) and the difference of every row to the first row (fixed by the two first-commit dates, +-0.02) are asserted; a case whose commits.json is not the history, or with a cell wider than 70 columns (the table writer folds at 80), is skipped and counted. Oracle: a reference fold over the operation list (old path / new path, not the notation): per live file the set of commits, the set of authors and the date of the first commit; a rename moves the record, a delete drops it. Compared: team summary as a set of (file, revisions, authors) and non-increasing in revisions; code age as a set of (file, first date) and non-decreasing; top authors as a set of (author, commits, added-deleted) with commit counts summing to the number of commits; basic summary commits / authors / distinct paths (with renames only: paths >= files existing at the end); changelog map = per conventional type and file name (the new name for a rename) the number of commits; printed change-log summary (ShowChangeLogSummary / -m) = one section per type with min(10, files) lines, each naming a file of that type with its count, none twice (which ten of more, and the order, are free); all summaries once more in CLI order on one shared commit list must equal the first results. Non-trivial = the history has a rename or a delete and at least 2 authors; distinct = hash of the commit list.",
 		"a file re-created at a path that was deleted or renamed away earlier starts a new record",
 		"inside one commit every path is touched at most once (what a git tree diff can express), so the order of a commit's changes is immaterial",
 		"dates never decrease along the log, so 'first commit' and 'oldest commit' of a file coincide",
 		"the order of the top-author list is not asserted (the statement promises none); 'Changes' of the basic summary is not asserted",
 		"conventional type = the word before ':' or '(scope):' at the very start of the subject, as written by the generator; subjects without a prefix start with a plain word followed by a blank",
 		"the 'parsed' route uses linear histories and leaves out the subject and path shapes on which the pinned parser is wrong (C14's findings); a case whose parser output differs from the history is skipped and counted, not judged")
-	pbt.Register("syn", 3000, 30000, genSyn, checkSyn)
-	pbt.Register("parsed", 2000, 10000, genParsed, checkParsed)
-	pbt.Register("cli", 60, 100, genCli, checkCli)
+	pbt.Register("syn", 2000, 30000, genSyn, checkSyn)
+	pbt.Register("parsed", 1500, 10000, genParsed, checkParsed)
+	pbt.Register("seq", 300, 3000, genSeq, checkSeq)
+	pbt.Register("cli", 30, 100, genCli, checkCli)
 }
 
 func selfTest(t *testing.T, n int) {
